@@ -78,8 +78,11 @@ class LoopNames:
                 def go(o, _f=f, _start=start):
                     it = Interp(p, o)
                     it.stubs["BioAgent.__init__"] = lambda interp, args, kwargs: None
-                    obj = it.instantiate(loop, [], dict(budget=Obj(None, {}, tag="budget"), enable_circuit_breaker=True, failure_threshold=Unknown("failure_threshold", kind="int"),
-                                                        recovery_timeout_seconds=Unknown("recovery_timeout_seconds", kind="real"), silent=True, on_block=None, on_permit=None))
+                    try:
+                        obj = it.instantiate(loop, [], dict(budget=Obj(None, {}, tag="budget"), enable_circuit_breaker=True, failure_threshold=Unknown("failure_threshold", kind="int"),
+                                                            recovery_timeout_seconds=Unknown("recovery_timeout_seconds", kind="real"), silent=True, on_block=None, on_permit=None))
+                    except PyRaise as e_:
+                        raise SkipPath(f"the constructor rejects this configuration: {e_.exc!r}")
                     obj.fields[self.state] = it.enum_member(cstate, _start)
                     for fld in (self.count, self.successes, self.last_failure, self.trips):
                         if fld is not None:
